@@ -72,7 +72,9 @@ def parseDur? (s : String) : Option Int :=
   | some n =>
     let mul : Option Nat := match unit with
       | "ns" => some 1 | "us" => some 1000 | "ms" => some 1000000 | "s" => some 1000000000
-      | "m" => some 60000000000 | "h" => some 3600000000000 | "d" => some 86400000000000 | _ => none
+      | "m" => some 60000000000 | "h" => some 3600000000000 | "d" => some 86400000000000
+      | "" => if n = 0 then some 1 else none     -- a bare `0` is the zero duration; other numbers need a unit
+      | _ => none
     mul.map fun k => ((n * k : Nat) : Int)
 
 def applyOpt (o : Opt) (args : List String) (m : M) : Except String M :=
